@@ -9,6 +9,8 @@ def build(repo, tier, seed):
     from . import interface_c07
     from .common import fn_hashes
     i_syn, i_und = interface_c07.obligations(repo)
+    o_syn, o_und = overload_c07.overload_decorator(repo)
+    i_syn, i_und = i_syn + o_syn, i_und + o_und
     b["syntactic"] += syn + [x for x in t_syn if "base=" in x["name"]] + i_syn
     b["undecided"] += und + t_und + i_und
     fns, hs = fn_hashes(repo, ["labrea.interface:Implementation.__init__", "labrea.interface:_build_overloads", "labrea.interface:_get_members"])
@@ -31,5 +33,6 @@ def build(repo, tier, seed):
                          "lock; Dataset.register/set_dispatch touch only the overload table; the callback is applied outside the switch (tower); no stale cross-dispatch value: L2 for "
                          "Switch/Overloaded puts the dispatch's keys into the fingerprint (outside region F18)",
                          "structural (AST) obligations on Implementation.__init__ and its helpers: every rejection (omitted abstract member, unknown member name) precedes the first registration and nothing can reject afterwards (group Implementation:C07)",
-                         "bounded only: Dataset.overload decorator plumbing, interface()/implements()/Interface.__init__ and which alias each member resolves to (metaclass code is outside the verifier's reach)"]
+                         "Dataset.overload(alias)(func) is under contract (group Dataset.overload:C07): one dataset is built, registered under every alias and returned (dataset() and register by contract)",
+                         "bounded only: interface()/implements()/Interface.__init__ and which alias each member resolves to (metaclass code is outside the verifier's reach)"]
     return b
